@@ -174,11 +174,21 @@ def idivC (m a b : Nat) : Nat × Nat :=
   let q := if sa != sb then (2 ^ m - q0) % 2 ^ m else q0
   (q, umodC ma mb)
 
+/-- `Compiler.SignPad`: the `xb` wires of `a` extended to `m` wires by repeating wire `xb-1`. -/
+def signPad (a xb m : Nat) : Nat := if xb < m ∧ a.testBit (xb - 1) then a + (2 ^ m - 2 ^ xb) else a
+
+/-- How `circuits.NewIDivider` brings its operands to a common width: `false` = `cc.ZeroPad` (repo HEAD),
+`true` = `cc.SignPad` (repo commit 5531c24, which was taken out of the history again).  The check compares this
+constant with the source of `NewIDivider` on every run (structural fact); the theorems hold for both values. -/
+def idivSignPads : Bool := false
+
+def padOperand (a xb m : Nat) : Nat := if idivSignPads then signPad a xb m else a
+
 /-- Large `Div` / `Mod`: a signed divider for BOTH signednesses, result size
-`max(x.bits, y.bits)`. -/
+`max(x.bits, y.bits)`, operands fed at their own sizes. -/
 def largeDivMod (xb yb : Nat) (x y : Int) : Nat × Nat × Nat :=
   let m := max xb yb
-  let (q, r) := idivC m (wires x xb) (wires y yb)
+  let (q, r) := idivC m (padOperand (wires x xb) xb m) (padOperand (wires y yb) yb m)
   (m, q, r)
 
 /-! ## Arithmetic methods `z.Op(x, y)`; `alias` says that `z` is `x` itself -/
@@ -234,12 +244,16 @@ def xor := bitwise (· ^^^ ·) (· ^^^ ·)
 /-- `x &^ y`; on residues `a &&& ~b = a ^^^ (a &&& b)`. -/
 def andNot := bitwise (fun a b => a &&& ~~~b) (fun a b => a ^^^ (a &&& b))
 
-/-- `Lsh`: large path shifts the big value and clears the bits from `z.bits`
-up to the length of the shifted magnitude. -/
+/-- `Lsh`: large path shifts the big value and clears (`SetBit(i, 0)`) the bits
+from `z.bits` up to the length of the shifted magnitude: for a non-negative
+value this is the value mod 2^z.bits; for a negative big value (two's
+complement `SetBit`) the cleared range is subtracted. -/
 def lsh (z x : MInt) (n : Nat) : Option MInt :=
   if z.isSmall then setSmall z.bits (x.small <<< n)
   else
     let v := x.bigv <<< n
+    if 0 ≤ v then some { z with big := some (v % ((2 ^ z.bits : Nat) : Int)) }
+    else
     let l := natBitLen v.natAbs
     let v' := if l > z.bits then v - ((((v >>> z.bits) % ((2 ^ (l - z.bits) : Nat) : Int))) <<< z.bits) else v
     some { z with big := some v' }
